@@ -95,7 +95,7 @@ type verifScriptedJoiner struct {
 }
 
 func (a *verifScriptedJoiner) Start(_ AnyConfig, p *ActionPluginParams) { a.ctl = p.Controller }
-func (a *verifScriptedJoiner) Stop()                                     {}
+func (a *verifScriptedJoiner) Stop()                                    {}
 func (a *verifScriptedJoiner) flush() {
 	e := a.held
 	a.held = nil
